@@ -16,10 +16,11 @@ Local Close Scope Q_scope.
 Local Open Scope nat_scope.
 
 (* ---- the filtered fraction ------------------------------------------------------------------ *)
-(* For EVERY shape without a null dict (and with both complete-case numbers when either is given)
-   the code's cascade returns the value of the property's decision list. *)
+(* For EVERY shape - JSON nulls included, which count as "not present" - with both complete-case
+   numbers when either is given, the code's cascade returns the value of the property's decision
+   list; in particular it never raises. *)
 Theorem C17_fraction_eq_spec r :
-  no_null_dicts r = true -> wf_shape r = true ->
+  wf_shape r = true ->
   pop_fraction r = Value (pop_fraction_spec r).
 Proof. exact (pop_fraction_eq_spec r). Qed.
 Print Assumptions C17_fraction_eq_spec.
@@ -53,24 +54,30 @@ Proof. exact (pf_old_style_zero fs n d). Qed.
 Print Assumptions C17_fraction_old_style_zero.
 
 Theorem C17_fraction_unspecified fs fil unf : no_new_style fs ->
-  fil <> Null -> unf <> Null -> no_number fil \/ no_number unf ->
+  no_number fil \/ no_number unf ->
   pop_fraction {| r_filter_stats := fs; r_filtered := fil; r_unfiltered := unf |} = Value (Fin 1).
 Proof. exact (pf_unspecified fs fil unf). Qed.
 Print Assumptions C17_fraction_unspecified.
 
-(* FULL STATEMENT (for every shape, null included: pop_fraction r = Value (pop_fraction_spec r))
-   IS FALSE for the faithful model: "filter_stats": null (or "filtered_complete": null, or a null
-   "filtered"/"unfiltered") raises instead of falling through the cascade.  Witnesses replayed on
-   the implementation: known finding C17-null-filter-stats-raises. *)
-Theorem C17_fraction_null_refuted :
-  exists r, wf_shape r = true /\ pop_fraction r = Raises /\ pop_fraction_spec r = Fin 1.
-Proof. exact pf_null_refuted. Qed.
-Print Assumptions C17_fraction_null_refuted.
+Theorem C17_fraction_total r : wf_shape r = true -> pop_fraction r <> Raises.
+Proof. exact (pop_fraction_total r). Qed.
+Print Assumptions C17_fraction_total.
 
-Theorem C17_fraction_null_complete_refuted :
-  exists r, wf_shape r = true /\ pop_fraction r = Raises /\ pop_fraction_spec r =x= Fin (1 # 2).
-Proof. exact pf_null_complete_refuted. Qed.
-Print Assumptions C17_fraction_null_complete_refuted.
+(* The former witnesses of the repaired defect C17-null-filter-stats-raises ("filter_stats": null,
+   "filtered": null, "filtered_complete": null raised AttributeError) now have the property's value. *)
+Theorem C17_fraction_null_is_absent :
+  pop_fraction {| r_filter_stats := Null; r_filtered := Absent; r_unfiltered := Absent |}
+  = Value (Fin 1) /\
+  pop_fraction {| r_filter_stats := Absent; r_filtered := Null; r_unfiltered := Val (Val 10%Q) |}
+  = Value (Fin 1).
+Proof. exact pf_null_is_absent. Qed.
+Print Assumptions C17_fraction_null_is_absent.
+
+Theorem C17_fraction_null_complete_old_style n d : ~ (d == 0)%Q ->
+  pop_fraction {| r_filter_stats := Val {| fs_complete := Null; fs_is_cat_date := false |};
+                  r_filtered := Val (Val n); r_unfiltered := Val (Val d) |} = Value (Fin (n / d)).
+Proof. exact (pf_null_complete_old_style n d). Qed.
+Print Assumptions C17_fraction_null_complete_old_style.
 
 (* ---- which proportion / standard error --------------------------------------------------------- *)
 Theorem C17_choice {A} (rowm colm tabm : A) :
@@ -117,34 +124,15 @@ Proof. exact (moe_cell_linear se N f a). Qed.
 Print Assumptions C17_moe_linear.
 
 (* ---- strand --------------------------------------------------------------------------------------------- *)
-(* P = table proportion, or 1 on a categorical-date strand; NaN on a subtotal difference - as long as
-   reading the property does not raise (see the two refuted statements below) *)
-Theorem C17_strand_pop_counts_def cd tabp N f dr : strand_pop_raises cd dr = false ->
+(* P = table proportion, or 1 on a categorical-date strand; NaN on every subtotal difference - for
+   every strand and any number of differences (the two raising cases, former findings
+   C17-strand-population-two-differences and C17-cat-date-strand-population-difference, are repaired) *)
+Theorem C17_strand_pop_counts_def cd tabp N f dr :
   exists v, strand_pop_counts cd tabp N f dr = Some v /\ length v = length tabp /\
     forall i, i < length tabp ->
       vnth v i = if nth i dr false then NaN else xmul (xmul (if cd then Fin 1 else vnth tabp i) N) f.
-Proof. exact (strand_pop_counts_cell cd tabp N f dr). Qed.
+Proof. exact (strand_pop_counts_total cd tabp N f dr). Qed.
 Print Assumptions C17_strand_pop_counts_def.
-
-Theorem C17_strand_no_raise cd dr :
-  (count_true dr = 0 -> strand_pop_raises cd dr = false) /\
-  (count_true dr = 1 -> strand_pop_raises false dr = false).
-Proof. exact (conj (strand_no_diff_ok cd dr) (strand_one_diff_ok dr)). Qed.
-Print Assumptions C17_strand_no_raise.
-
-(* FULL STATEMENT (differences are NaN for every strand) IS FALSE for the faithful model: with two or
-   more difference subtotals, or one on a categorical-date strand, population_counts raises.
-   Witnesses replayed on the implementation: known findings C17-strand-population-two-differences,
-   C17-cat-date-strand-population-difference. *)
-Theorem C17_strand_two_differences_refuted :
-  exists tabp N f dr, count_true dr = 2 /\ strand_pop_counts false tabp N f dr = None.
-Proof. exact strand_two_diffs_refuted. Qed.
-Print Assumptions C17_strand_two_differences_refuted.
-
-Theorem C17_strand_cat_date_difference_refuted :
-  exists tabp N f dr, count_true dr = 1 /\ strand_pop_counts true tabp N f dr = None.
-Proof. exact strand_cat_date_diff_refuted. Qed.
-Print Assumptions C17_strand_cat_date_difference_refuted.
 
 (* every wave of a categorical-date strand projects the full (filtered) population, with no MoE *)
 Theorem C17_strand_cat_date tabp tabse q f dr i :
@@ -165,7 +153,7 @@ Print Assumptions C17_strand_pop_moe_def.
 (* ---- non-vacuity ---------------------------------------------------------------------------------------------- *)
 Example C17_example_fraction :
   let r := new_style 3 1 false (Val (Val 5%Q)) (Val (Val 10%Q)) in
-  no_null_dicts r = true /\ wf_shape r = true /\
+  wf_shape r = true /\
   pop_fraction r = Value (Fin (3 / (3 + 1))) /\
   pop_fraction {| r_filter_stats := Absent; r_filtered := Val (Val 5%Q); r_unfiltered := Val (Val 10%Q) |}
     = Value (Fin (5 / 10)) /\
@@ -187,7 +175,8 @@ Example C17_example_counts :
 Proof. cbv zeta. repeat split; vm_compute; reflexivity. Qed.
 
 Example C17_example_strand :
-  strand_pop_raises false [false; true; false] = false /\
   strand_pop_counts false [Fin (1 # 4); Fin (1 # 2); Fin (3 # 4)] (Fin 1000) (Fin (1 # 2)) [false; true; false]
-  = Some [Fin ((1 # 4) * 1000 * (1 # 2)); NaN; Fin ((3 # 4) * 1000 * (1 # 2))].
+  = Some [Fin ((1 # 4) * 1000 * (1 # 2)); NaN; Fin ((3 # 4) * 1000 * (1 # 2))] /\
+  strand_pop_counts true [Fin (1 # 4); Fin (1 # 2); Fin (3 # 4)] (Fin 1000) (Fin (1 # 2)) [false; true; true]
+  = Some [Fin (1 * 1000 * (1 # 2)); NaN; NaN].
 Proof. split; reflexivity. Qed.
